@@ -79,6 +79,42 @@ def run(ctx):
             rc, t = eng.finish()
             if rc is None:
                 eng.kill()
+    # `go depth N` for LARGE N on tiny positions (iterations are instant; long pawn-move lines reach the ply cap of 255 inside
+    # the tree): every depth 1..N must still be reported (C14_depth_only / C14_chess_depth_only hold for every N <= 255)
+    deep_positions = ["fen 8/1R6/2N2P2/2kP4/2P4P/3P4/8/6K1 w - - 1 94 moves f6f7 c5d6", "fen 7k/5Q2/6K1/8/8/8/8/8 w - - 0 1",
+                      "fen 6k1/5ppp/8/8/8/8/8/R3K3 w - - 0 1", "fen k7/p1K5/P7/8/8/8/8/1R6 w - - 0 1"]
+    deep_ns = [255, 254, 128] if ctx["tier"] == "quick" else [255, 254, 253, 200, 128, 64]
+    deep_runs = 0
+    for pos in deep_positions:
+        for n in deep_ns:
+            eng = uciproc.Engine()
+            try:
+                eng.send("position " + pos)
+                before = len(eng.lines())
+                eng.send("go depth %d" % n)
+                idx = eng.wait_for(lambda l: l.startswith("bestmove"), 25, start=before)
+                if idx is None:
+                    eng.send("stop")          # too big a tree for this position: not judged
+                    eng.wait_for(lambda l: l.startswith("bestmove"), 10, start=before)
+                    continue
+                deep_runs += 1
+                out = eng.lines()[before:idx + 1]
+                depths = [int(m.group(1)) for m in (INFO_RE.match(l) for l in out if l.startswith("info")) if m]
+                bad = [l for l in out if l.startswith("info") and not INFO_RE.match(l)]
+                if bad or depths != list(range(1, n + 1)):
+                    missing = sorted(set(range(1, n + 1)) - set(depths))[:10]
+                    rp = C.write_replay(prop, {"kind": "go depth N over the pipe, large N", "position": "position " + pos, "N": n,
+                                               "problem": ("info line is not well-formed UCI: %r" % bad[0]) if bad else
+                                               "go depth %d did not report every depth 1..%d (missing %s, %d lines)" % (n, n, missing, len(depths)),
+                                               "output_tail": out[-4:],
+                                               "replay_cmd": "printf 'position %s\ngo depth %d\n' | (cat; sleep 20) | %s | tail -3" % (pos, n, C.ENGINE)})
+                    violations.append({"replay": rp})
+                    break
+            finally:
+                rc, t = eng.finish()
+                if rc is None:
+                    eng.kill()
+    cov["deep_depth_only_runs"] = deep_runs
     # game-like sequences in ONE process (the cache is kept between moves): play the engine's own best move, search again
     games = [("fen 6k1/1R3p2/6p1/2Bp3p/3P2q1/P7/1P2rQ1K/5R2 b - - 4 44", []), ("startpos", ["e2e4", "e7e5", "g1f3"]),
              ("fen r3k2r/p1ppqpb1/bn2pnp1/3PN3/1p2P3/2N2Q1p/PPPBBPPP/R3K2R w KQkq - 0 1", []),
